@@ -116,7 +116,7 @@ def qual_match(m, seg_id, qual):
     if qual is None:
         return True
     c = m.x.children
-    if c[0].is_element() and c[0].data_type == 'ID' and c[0].usage == 'R' and len(c[0].valid_codes) > 0:
+    if c[0].is_element() and c[0].data_type == 'ID' and len(c[0].valid_codes) > 0:      # required or not: it is the element the code qualifies
         return qual in c[0].valid_codes and m_value(m, '01') == qual
     if seg_id == 'ENT' and len(c) > 1 and c[1].is_element() and c[1].data_type == 'ID' and len(c[1].valid_codes) > 0:
         return qual in c[1].valid_codes and m_value(m, '02') == qual
@@ -331,6 +331,21 @@ class Sut(object):
             if ct != len(exp):
                 raise Violation('query-count', 'from segment %s, path %r: count %d, mirror %d' % (msegs[j].id, p2, ct, len(exp)))
             self.flags.add('query-from-segment')
+            if seg and exp and exp[0].kind == 'seg':
+                # reading and writing through the same '../' path resolve to the same first segment
+                p3 = p2 + '01'
+                try:
+                    got = rs.get_value(p3)
+                except Exception as e:
+                    raise Violation('get-raises', 'from segment %s, get_value(%r): %s' % (msegs[j].id, p3, core.exc_detail(e)))
+                want = m_value(exp[0], '01')
+                if got != want:
+                    raise Violation('get-value', 'from segment %s, get_value(%r) = %r, mirror %r' % (msegs[j].id, p3, got, want))
+                if want and not exp[0].elems[0][1:]:
+                    try:
+                        rs.set_value(p3, want)          # the same value again: the tree must not change
+                    except Exception as e:
+                        raise Violation('set-raises', 'from segment %s, set_value(%r): %s' % (msegs[j].id, p3, core.exc_detail(e)))
         elif k == 'query':
             exp = m_select(mbase, loops, seg, qual)
             try:
